@@ -117,6 +117,17 @@ CHECKS = {
             "Rocq proof of the sorted-range mechanism (partial) + repeated-write / cross-process byte comparison on the implementation",
             "partial: no Gallina model of the WebVTT/SSA/TTML/STL writers yet, so for them determinism and purity rest on the repeated-write "
             "comparison (Go's map iteration is randomised per range statement, so 50 repetitions x 5 processes exercise many orders)."),
+    "C08": (True,
+            "Theorems: the SubRip reader model returns Ok or Err - never Panic - for every token list, hence for every byte string under "
+            "every delivery schedule, and the SubRip writer model for every cue list; the cue-list operations are total functions. "
+            "For the other readers/writers the property is decided on the implementation: every reader (all option values, and the "
+            "extension-dispatching opener) on valid documents, structure-aware mutations/truncations/splices, wrong-format documents, "
+            "random bytes, transport streams with malformed PES payloads / data units / teletext packets inside a valid packet layer; "
+            "every writer on cue lists with every optional part absent and hostile text; all under recover() and a 5 s watchdog. Panics "
+            "that originate inside the third-party demultiplexer are excluded, as the property states.",
+            "Rocq totality proof for the SubRip models (partial) + structure-aware mutation under recover()/watchdog on the implementation",
+            "partial: exploration level for WebVTT, SSA, TTML, STL, teletext (no Gallina models of those readers yet); running time is "
+            "only observed through the watchdog."),
 }
 
 PENDING = "check not built yet in this session (work in progress; see DESIGN.md section 7 for the plan)"
